@@ -60,9 +60,121 @@ def scenarios(tier, pid):
     return S
 
 
+MODEL_INV = {
+    "C01": ["NoUseAfterFree", "Quiescent"],
+    "C02": ["OwnSignalOnly"],
+    "C03": ["HandlerNeverBlocked"],
+    "C04": ["PrevChained"],
+    "C18": ["LockOrder"],
+}
+
+
+def extract_params():
+    """Step orders of the dispatcher and of a first registration, from their solo runs."""
+    sig, _, _ = harness("registry", "--signature")
+    stale = []
+    c = dict(DispatchOrder="F_then_D", RegisterOrder="fallback_then_sigaction", FallbackGrace=True)
+    disp = [x for x in sig["dispatch"] if x[0] != "sigaction"]
+    firstF = next((i for i, x in enumerate(disp) if x[1].startswith("F.")), None)
+    firstD = next((i for i, x in enumerate(disp) if x[1].startswith("D.")), None)
+    if firstF is None or firstD is None:
+        stale.append("dispatcher does not read both half-locks: %s" % [(x[0], x[1]) for x in disp])
+    else:
+        c["DispatchOrder"] = "F_then_D" if firstF < firstD else "D_then_F"
+    reg = sig["register_first"]
+    names = [(x[0], x[1]) for x in reg]
+    if ("sigaction", "kernel") not in names:
+        stale.append("first registration: no disposition switch observed")
+    elif ("swap", "F.data") not in names:
+        stale.append("first registration: the fallback is never stored")
+    else:
+        i_sa, i_f = names.index(("sigaction", "kernel")), names.index(("swap", "F.data"))
+        c["RegisterOrder"] = "fallback_then_sigaction" if i_f < i_sa else "sigaction_then_fallback"
+        i_unl = names.index(("unlock", "F.mtx")) if ("unlock", "F.mtx") in names else len(names)
+        barrier = [n for n in names[i_f + 1:i_unl] if n[0] == "load" and n[1].startswith("F.lock")]
+        c["FallbackGrace"] = len(barrier) >= 2
+        if ("swap", "D.data") not in names or names.index(("swap", "D.data")) < max(i_sa, i_f):
+            stale.append("first registration: the slot is published before the fallback / "
+                         "sigaction steps")
+    return c, stale, sig
+
+
+def script(ops_by_thread):
+    """TLA+ expression for the Script constant."""
+    def op(o):
+        if o[0] == "reg":
+            return '<<"reg", %d, %d>>' % (o[1], o[2])
+        if o[0] == "unreg":
+            return '<<"unreg", %d>>' % o[1]
+        return '<<"unregsig", %d>>' % o[1]
+    ms = sorted(ops_by_thread)
+    parts = " @@ ".join("(%d :> <<%s>>)" % (m, ", ".join(op(o) for o in ops_by_thread[m]))
+                        for m in ms)
+    return "@" + parts
+
+
+def prevkind(d):
+    return "@" + " @@ ".join('(%d :> "%s")' % (k, v) for k, v in sorted(d.items()))
+
+
+def model_configs(tier):
+    R, U, S = "reg", "unreg", "unregsig"
+    q = [
+        ("2 signals with foreign info/plain handlers, 2 registering threads (one also removes), "
+         "a third thread, 2 deliveries anywhere (nested allowed)",
+         dict(Sigs={10, 12}, Mutators={1, 2}, Others={3},
+              Script=script({1: [(R, 10, 1), (U, 1)], 2: [(R, 12, 2)]}),
+              PrevKind=prevkind({10: "info", 12: "plain"}), MaxDeliveries=2, MaxNested=1), 600),
+        ("1 signal previously ignored + 1 default, register twice / remove / unregister_signal, "
+         "2 deliveries",
+         dict(Sigs={10, 12}, Mutators={1, 2}, Others=set(),
+              Script=script({1: [(R, 10, 1), (R, 10, 2), (U, 1)], 2: [(R, 12, 3), (S, 12)]}),
+              PrevKind=prevkind({10: "ign", 12: "dfl"}), MaxDeliveries=2, MaxNested=1), 600),
+    ]
+    if tier == "thorough":
+        q += [
+            ("2 signals (plain / info), 2 mutators x 2-3 ops, 1 other thread, 3 deliveries, nesting 2",
+             dict(Sigs={10, 12}, Mutators={1, 2}, Others={3},
+                  Script=script({1: [(R, 10, 1), (R, 12, 2), (U, 1)], 2: [(R, 12, 3), (S, 12)]}),
+                  PrevKind=prevkind({10: "plain", 12: "info"}), MaxDeliveries=3, MaxNested=2), 2400),
+        ]
+    return q
+
+
+def run_model(chk, tier):
+    pid = chk.pid
+    if pid not in MODEL_INV:
+        return
+    consts, stale, sig = extract_params()
+    chk.params["registry"] = {"constants": {k: str(v) for k, v in consts.items()},
+                              "signature": sig, "stale": stale}
+    for s in stale:
+        chk.note("mid-level model stale for the registry: %s (falling back to exhaustive real "
+                 "schedules with TraceRegistryAbs as the only oracle)" % s)
+    if stale:
+        return
+    for what, cfg, tmo in model_configs(tier):
+        c = dict(cfg)
+        c.update(consts)
+        r = chk.model_check("Registry.tla", c, invariants=MODEL_INV[pid], what=what, timeout=tmo,
+                            workers=8 if tier == "quick" else 12, deadlock=(pid == "C18"))
+        if r.violation:
+            chk.model_violation(r, "lib.rs as extracted (%s)" % what, c, extra={"signature": sig})
+    if pid == "C18":
+        what, cfg, tmo = model_configs("quick")[0]
+        c = dict(cfg)
+        c.update(consts)
+        c["MaxDeliveries"] = 1
+        r = chk.model_check("Registry.tla", c, properties=["Termination"], spec="FairSpec",
+                            what="liveness: " + what, timeout=900, workers=4)
+        if r.violation:
+            chk.model_violation(r, "lib.rs liveness", c)
+
+
 def run_registry(chk, tier):
     pid = chk.pid
     inv = INV_OF[pid]
+    run_model(chk, tier)
     for name, args in scenarios(tier, pid):
         out = os.path.join(WORK, "rg_%s_%s" % (pid, name))
         stats, _, _ = harness("registry", *args, "--out", out, "--max", 200000,
